@@ -574,6 +574,38 @@ impl<E: Elem> World<E> {
         self.put_loose_all(cx, stash);
     }
 
+    /// boxed map to a plain type of the same size but alignment 1 (an implementation that reuses
+    /// the block must still release it with the layout it was requested with)
+    pub fn op_bx_map_bytes(&mut self, cx: &mut Cx, a: [u32; N_ARGS]) {
+        let Some(i) = pick_len(self.bxs.len(), a[0]) else { cx.ops_noop += 1; return };
+        let b = self.bxs.remove(i);
+        let n = b.len();
+        let mut cb = Cb::<E>::new(a[1]);
+        let r = with_bx!(b; x, N => { let _ = N::USIZE; lib(|| {
+            let out: Box<GenericArray<E::Bytes, N>> = FunctionalSequence::map(x, |e: E| {
+                let _g = enter(Ctx::Work);
+                ledger::tick(Seam::Closure);
+                let id = e.observe(910);
+                cb.record(id, 0);
+                if (cb.beh + cb.calls) % 2 == 0 { drop(e) } else { cb.keep(e) }
+                cb.calls += 1;
+                <E::Bytes as Default>::default()
+            });
+            out.len()
+        }) });
+        cx.cov(&[OpKind::Map as u64, n as u64, 6, r.is_err() as u64, cb.calls as u64 * r.is_err() as u64]);
+        match r {
+            Ok(len) => {
+                if cx.checks.c08 && len != n {
+                    fail("C08-result", format!("boxed map to bytes returned length {len} for {n}"));
+                }
+            }
+            Err(p) => on_panic(cx, "boxed map (to bytes)", p),
+        }
+        let stash = core::mem::take(&mut cb.stash);
+        self.put_loose_all(cx, stash);
+    }
+
     pub fn op_bx_fold(&mut self, cx: &mut Cx, a: [u32; N_ARGS]) {
         let Some(i) = pick_len(self.bxs.len(), a[0]) else { cx.ops_noop += 1; return };
         let b = self.bxs.remove(i);
